@@ -136,7 +136,7 @@ Definition derived (l l' : list entry) : Prop :=
   forall e', In e' l' -> exists e0, In e0 l /\ e_lpid e0 = e_lpid e' /\ content e0 = content e'.
 
 Lemma derived_refl l : derived l l.
-Proof. intros e' H. exists e'. repeat split; [exact H| |]; reflexivity. Qed.
+Proof. intros e' H. exists e'. split; [exact H|split; reflexivity]. Qed.
 
 Lemma derived_sub l l' : incl l' l -> derived l l'.
 Proof. intros H e' He. exists e'. split; [apply H, He|split; reflexivity]. Qed.
@@ -171,7 +171,7 @@ Proof.
     cbn [fst] in *. unfold entries_of. rewrite Ed, alookup_mp.
     destruct (alookup net (t_dests t)) as [d|] eqn:Hd; [|apply derived_nil].
     apply derived_sub. intros x Hx.
-    destruct (restale_dest_entries (restale_flags llgr addr (t_dests t) (t_flags t)) addr net d) as [_ Hp].
+    destruct (restale_dest_entries (restale_flags llgr addr (t_dests t) (t_flags t)) llgr addr net d) as [_ Hp].
     apply (Permutation_in x (Permutation_sym Hp)), Hx.
   - destruct (nhv_op_dests t nh r) as [Ed _]. destruct (nhv_op t nh r) as [t' cs].
     cbn [fst] in *. unfold entries_of. rewrite Ed, alookup_mp.
@@ -208,14 +208,17 @@ Proof.
   assert (Hee : In e (entries_of t (c_net c))).
   { unfold elig_of, entries_of in *. destruct (alookup (c_net c) (t_dests t)); [|destruct He].
     apply filter_In in He. tauto. }
-  destruct (net_ok_step f t o (c_net c) H1 Hinv Hw) as [Hok _].
-  destruct (Hok c Hin eq_refl) as (_ & Hp & _). change (oel (alookup (c_net c) (t_dests (step_t t o)))) with (elig_of (step_t t o) (c_net c)) in Hp.
+  destruct (net_ok_step f t o (c_net c) H1 Hinv Hw) as (Hok & _ & _).
+  destruct (Hok c Hin eq_refl) as (Hp & _).
   assert (Hee' : In e' (entries_of (step_t t o) (c_net c))).
   { rewrite Hp in He'. unfold elig_of, entries_of in *. destruct (alookup (c_net c) (t_dests (step_t t o))); [|destruct He'].
     apply filter_In in He'. tauto. }
   destruct o as [s n0 rpid nh a filt nhinv lim|s n0 rpid ctr|k addr ctr|llgr addr|nh r| |] eqn:Eo.
-  2-7: (destruct (step_entries_derived t o (c_net c) Hinv) as (e0 & H0 & Hl0 & Hc0);
-        [rewrite Eo; intros; discriminate|rewrite Eo; exact Hee'|];
+  2-7: (match goal with Hx : In _ (entries_of (step_t _ ?oo) _) |- _ =>
+          assert (Hdv : derived (entries_of t (c_net c)) (entries_of (step_t t oo) (c_net c)))
+            by (apply step_entries_derived; [exact Hinv|intros; discriminate]);
+          destruct (Hdv e' Hx) as (e0 & H0 & Hl0 & Hc0)
+        end;
         assert (e0 = e) by (apply (nodup_map_inj e_lpid _ _ _ Hnd H0 Hee); congruence);
         subst e0; exact Hc0).
   (* insert *)
